@@ -576,7 +576,8 @@ def l12(ctx: Ctx):
     for nm in ("INVOKED_PROCEDURE_NAMES", "STR_STORAGE_TAG"):
         uses = _pattern_uses(ctx, nm)
         ctx.need(uses, f"{nm}:uses", f"no application of `{nm}` found in procbank.py")
-        if not all(_line_valued(fn_, subj, env_pb) for fn_, _, subj in uses):
+        mod_tree = pyfacts(ctx).mod(PROCBANK_REL).tree
+        if not all(_line_valued(fn_, subj, env_pb, mod_tree) is not False for fn_, _, subj in uses):
             whole_text.append(nm)
     for name, p in sorted(L.procs.items()):
         odd = [(ln, raw) for ln, raw in p.lines if raw.count('"') % 2 == 1]
